@@ -179,3 +179,39 @@ def nesting_texts(depths):
         yield ("text", '{"a":' * d + "1" + "}" * d)
         yield ("text", "[" * d)
         yield ("text", '{"jsonrpc": "2.0", "method": "echo", "id": 1, "params": ' + "[" * d + "]" * d + "}")
+        # depth inside each member of a request, and inside objects that are no request
+        yield ("text", '{"jsonrpc": "2.0", "method": "echo", "id": 1, "params": [' + '{"k":' * d + "1" + "}" * d + "]}")
+        yield ("text", '{"jsonrpc": "2.0", "method": "echo", "params": [1], "id": ' + "[" * d + "]" * d + "}")
+        yield ("text", '{"method": "echo", "params": [1], "id": ' + '{"k":' * d + "1" + "}" * d + "}")
+        yield ("text", '{"jsonrpc": "2.0", "id": 1, "method": ' + "[" * d + "]" * d + "}")
+        yield ("text", '{"jsonrpc": "2.0", "method": 7, "id": ' + "[" * d + "]" * d + "}")
+        yield ("text", '{"a": ' + "[" * d + "]" * d + "}")
+        yield ("text", '{"a": ' + '{"k":' * d + "1" + "}" * d + "}")
+        yield ("text", '[{"a": ' + "[" * d + "]" * d + '}, {"jsonrpc": "2.0", "method": "echo", "id": 2}]')
+
+
+def interpreter_depth_limits():
+    """Nesting depths at which this interpreter's own machinery gives up: the
+    smallest depth json.loads refuses, and the Python frame limit.  The dense
+    part of the depth sweep is centred on them (a reply is built, formatted and
+    serialised a few levels deeper than the request was parsed)."""
+    import json
+    import sys
+
+    def refuses(d):
+        try:
+            json.loads("[" * d + "]" * d)
+            return False
+        except RecursionError:
+            return True
+
+    lo, hi = 1, 1 << 20
+    if not refuses(hi):
+        return hi, sys.getrecursionlimit()
+    while lo < hi:
+        mid = (lo + hi) // 2
+        if refuses(mid):
+            hi = mid
+        else:
+            lo = mid + 1
+    return lo, sys.getrecursionlimit()
